@@ -170,8 +170,12 @@ def run(ctx):
                     continue
                 if fd is not None and k == "call" and ev[2] == "builtin:open" and ev[3] and ev[3][0] == fd:
                     continue  # (a failure to wrap the descriptor is a failure of the write phase itself)
-                if k == "call" and ev[2] in ("method:write", "method:close", "method:flush", "method:writelines") and handle is not None and ev[3] and ev[3][0] == handle:
+                if k == "call" and ev[2] in ("method:write", "method:close", "method:flush", "method:writelines", "method:fileno") and handle is not None and ev[3] and ev[3][0] == handle:
                     continue
+                if k == "call" and ev[2] in ("ext:os.fsync", "ext:os.fdatasync") and handle is not None and ev[3] and (ev[3][0] == handle or (is_call(ev[3][0], "method:fileno") and ev[3][0][2] and ev[3][0][2][0] == handle)):
+                    continue  # (forcing the bytes just written to disk: part of the write)
+                if k == "caught" and eng.prog.exc_is_sub(ev[2], "OSError") and len(ev) > 6 and ev[6] and any(st_.text.startswith(("os.fsync", "os.fdatasync")) or ".flush()" in st_.text or ".fileno()" in st_.text for st_ in ev[6][-1:]):
+                    continue  # (a best-effort fsync whose failure is ignored)
                 if k == "call" and ev[2].startswith("repo:") and (ev[2][5:].split("[")[0].split("<")[0] in inline or ev[1] in inlined_sites):
                     continue  # summary marker of an inlined callee (its own events were checked in place)
                 if k == "call" and evs[first][0] == "fs-mutation" and ev[1] == evs[first][1]:
@@ -218,6 +222,14 @@ def run(ctx):
                 if not (own_handler or own_failure):
                     continue  # a library predicate's own probe (is_*), not a failure of the signer
                 swallowed.setdefault(hsite.key(), (hsite, ev[2]))
+        # ... nor is an error inside a function handed to map()/filter() taken for the end of the data
+        for p in sm.paths:
+            evs_all = list(all_events(p.events))
+            if not any((opens_for_writing(ev, target)) or (ev[0] == "fs-mutation" and any(a == target for a in ev[3])) for ev in evs_all):
+                continue
+            for ev in evs_all:
+                if ev[0] == "iteration-cut-short":
+                    swallowed.setdefault(ev[1].key(), (ev[1], "StopIteration (ends the %s iteration silently)" % ev[2][8:]))
         ctx.count("R5.signers")
         ctx.ob(
             "R5",
